@@ -7,11 +7,13 @@
 -/
 import Serif.Wire
 import Serif.Drive.C04
+import Serif.Drive.C01
 open Lean Serif.Wire
 
 def dispatch (p fam : String) (c impl : Json) : P Json :=
   match p with
   | "C04" => Serif.Drive.C04.handle fam c impl
+  | "C01" => Serif.Drive.C01.handle fam c impl
   | _ => .error s!"unknown property {p}"
 
 def answer (line : String) : Json :=
